@@ -372,13 +372,25 @@ func (self Reflect) childMap(v reflect.Value) node.Node {
 	return &Basic{
 		Peekable: v.Interface(),
 		OnChoose: func(state *node.Selection, choice *meta.Choice) (m *meta.ChoiceCase, err error) {
-			for _, c := range choice.Cases() {
-				for _, d := range c.DataDefinitions() {
-					mapKey := reflect.ValueOf(d.Ident())
-					mapVal := v.MapIndex(mapKey)
-					if mapVal.IsValid() {
-						return c, nil
+			// members of nested choices appear directly in the map
+			var hasAny func(defs []meta.Definition) bool
+			hasAny = func(defs []meta.Definition) bool {
+				for _, d := range defs {
+					if nested, isChoice := d.(*meta.Choice); isChoice {
+						for _, c := range nested.Cases() {
+							if hasAny(c.DataDefinitions()) {
+								return true
+							}
+						}
+					} else if v.MapIndex(reflect.ValueOf(d.Ident())).IsValid() {
+						return true
 					}
+				}
+				return false
+			}
+			for _, c := range choice.Cases() {
+				if hasAny(c.DataDefinitions()) {
+					return c, nil
 				}
 			}
 			return nil, nil
